@@ -29,7 +29,7 @@ use routecore::bgp::fsm::session::{
 //use roto::types::builtin::basic_route::SourceId;
 
 use crate::roto_runtime::types::{
-    explode_announcements, explode_withdrawals, FreshRouteContext, Output, OutputStreamMessage, Provenance, RotoOutputStream,
+    explode_update, FreshRouteContext, Output, OutputStreamMessage, Provenance, RotoOutputStream,
 };
 //use crate::bgp::encode::Announcements;
 //use crate::common::roto::{FilterOutput, RotoScripts, ThreadLocalVM};
@@ -627,8 +627,7 @@ impl Processor {
         //let rws = explode_announcements(&bgp_msg, &mut self.observed_nlri)?;
 
         //  RotondaRoute announcements:
-        let rr_reach = explode_announcements(&bgp_msg)?;
-        let rr_unreach = explode_withdrawals(&bgp_msg)?;
+        let (rr_reach, rr_unreach) = explode_update(&bgp_msg)?;
         let context = FreshRouteContext::new(
             bgp_msg.clone(),
             RouteStatus::Active,
